@@ -283,12 +283,16 @@ def _window_params(tier, seed):
             if isinstance(iv[0], int) and (iv[0] // NPD) % 32 in (31, 0):
                 extra.append([zid, k])
     out += extra[: (3 if tier == "quick" else 40)]
+    # the end of the rule-generated timeline: the last transition of year 9998 (its interval ends at the first transition of 9999)
+    tailed = [z for z in ids if ref["zones"][z]["kind"] != "fixed" and ref["zones"][z]["tail"] is not None]
+    for i in range(1 if tier == "quick" else 12):
+        out.append([tailed[(seed * 11 + i * 17) % len(tailed)], "late"])
     return out
 
 
 @lemma({"d": int, "n": int}, params=_window_params, budget=240, thorough_budget=400, per_path=60,
        bounds="a zone of the provider (fresh cached zone = what for_id builds) x EVERY instant within 40 days either side of a reference "
-              "transition (stored periods, and rule-generated ones up to 2100; quick: ~10 seeded transitions plus 3 on cache-block boundaries): "
+              "transition (stored periods, rule-generated ones up to 2100, and the last transition of year 9998; quick: ~10 seeded transitions plus 3 on cache-block boundaries plus one at the end of the timeline): "
               "start, end, name, wall offset and savings of the interval returned equal the independently decoded timeline")
 def provider_window(P):
     from pyoda_time.time_zones._cached_date_time_zone import _CachedDateTimeZone
@@ -296,7 +300,12 @@ def provider_window(P):
     _cs.prepare("ISO")
     _ymdrecord.install()
     ref = ref_file()
-    ivs = R.reference_intervals(ref["zones"][zid], 1950, 2100)
+    if k == "late":
+        ivs = R.tail_window_intervals(ref["zones"][zid], 9990, 9998)
+        y9999 = (R.fixed_from_gregorian(9999, 1, 1) - R.RD_UNIX_EPOCH) * NPD
+        k = max(i for i, iv in enumerate(ivs) if isinstance(iv[0], int) and iv[0] < y9999)
+    else:
+        ivs = R.reference_intervals(ref["zones"][zid], 1950, 2100)
     T = ivs[k][0]
     lo_d, hi_d = T // NPD - 40, T // NPD + 40
     near = [iv for iv in ivs if (iv[1] == R.MAX_T or iv[1] > lo_d * NPD) and (iv[0] == R.MIN_T or iv[0] <= (hi_d + 1) * NPD)]
